@@ -82,6 +82,32 @@ Theorem C06_crc32_single_byte : forall pre b b' post v, 0 <= v < 2 ^ 32 -> Foral
 Proof. exact crc32_detects. Qed.
 Print Assumptions C06_crc32_single_byte.
 
+(* The framing switch of the handshake: whichever answer the server gives to STARTUP (READY, or AUTHENTICATE followed later by
+   AUTH_SUCCESS), a v5 connection reads segments in the compressed format iff compression was announced in STARTUP -- the
+   format the peer writes them in -- and the choice does not change afterwards; before v5 no segment codec is installed. *)
+Theorem C06_codec_follows_negotiation : forall (negotiated : bool) (r : hreply), r <> RAuthSuccess ->
+  hs_codec (on_reply true r (hs_init negotiated)) = Some negotiated /\
+  hs_codec (on_reply true RAuthSuccess (on_reply true r (hs_init negotiated))) = Some negotiated /\
+  hs_codec (on_reply false r (hs_init negotiated)) = None.
+Proof. intros [|] [| |] H; try congruence; repeat split; reflexivity. Qed.
+Print Assumptions C06_codec_follows_negotiation.
+
+(* ... hence what the peer sends after the switch (any frames, any segmentation, any chunking), starting with AUTH_SUCCESS on
+   an authenticated connection, is reassembled exactly and without any checksum error. *)
+Theorem C06_roundtrip_after_handshake : forall compress decompress, codec_ok compress decompress ->
+  forall (negotiated : bool) (r : hreply) (c : bool), r <> RAuthSuccess ->
+  hs_codec (on_reply true r (hs_init negotiated)) = Some c ->
+  forall (segs : list seg) (fs : list frame) (chunks : list (list Z)),
+  segs_ok segs -> Forall wf fs -> payloads segs = frames_bytes fs ->
+  concat chunks = wire negotiated compress segs ->
+  exists c', run_cfeed c decompress cinit chunks = (CLive [] [] c', map deliver fs).
+Proof.
+  intros compress decompress Hc negotiated r c Hr Hcodec segs fs chunks H1 H2 H3 H4.
+  destruct (C06_codec_follows_negotiation negotiated r Hr) as (E & _). rewrite E in Hcodec. inversion Hcodec; subst c.
+  eapply C06_roundtrip; eassumption.
+Qed.
+Print Assumptions C06_roundtrip_after_handshake.
+
 (* Non-vacuity: the identity pair is a codec (every segment is then "left uncompressed" under negotiated compression);
    two frames in three segments (one frame spanning two segments, 5-byte headers), read one byte at a time; and a flipped bit. *)
 Definition id_c (x : list Z) : list Z := x.
